@@ -435,6 +435,17 @@ func genFacts(c *ctx, s *schema) {
 	c.side["global_writes_cmd"] = cmdWrites
 	c.leanSites(&b, "globalWritesLib", libWrites)
 	fmt.Fprintf(&b, "def nPackageVars : Nat := %d\n", len(allVars))
+	// the library's package-level variables by name: state that outlives a call is what concurrent (and
+	// consecutive) pipelines could share, also when it is only ever changed through method calls (a
+	// sync.Pool, a map, a cache); the set is pinned in Spec/SharedState.lean
+	var libVars []string
+	for _, v := range allVars {
+		if !strings.HasPrefix(v, "cmd/") {
+			libVars = append(libVars, fmt.Sprintf("%q", v))
+		}
+	}
+	sort.Strings(libVars)
+	fmt.Fprintf(&b, "def libPackageVars : List String := [%s]\n", strings.Join(libVars, ", "))
 
 	// F3 error callback invocations and their nil guards
 	var unguarded, guarded []site
